@@ -36,6 +36,9 @@ Decided:
   R15.i  parse sites fed with request data (base64 / codec decoding, loads, int / float, configured type callables), in the hook or
          in the tree / pinned-library functions it calls (receiver classes from self / cls / super() / class attributes), are caught
          on the way up (c15_parse).
+  R15.j  the bookkeeping a hook does once next() has answered (the statements after next(), ``finally`` blocks included, and the tree
+         functions they call on objects of known class) cannot fail: every index operation on a sequence there is entailed in bounds by
+         its path condition or absorbed by a handler (c15_total) -- an exception there replaces the application's response.
 Also under R15.b: no other binding of a returned name reaches the return (the object returned *is* the next() result); no path calls
 next() twice; nothing is stored into the request; the attributes / headers describing the body (type, charset, encoding, length) count
 as body mutators; the trigger a modification sits under must not come out on the modifying side for a request that carries nothing
@@ -128,7 +131,8 @@ def run(rep):
     rep.decide('R15.a attribute protocol on next() results; R15.b pass-through / guarded body mutation; '
                'R15.c handlers re-raise; R15.d gzip bookkeeping; R15.e nullable header attributes are tested before use; '
                'R15.f body-as-sequence operations only where not streamed is entailed; R15.g own exceptions only under the trigger; '
-               'R15.h render hooks fill only unset context keys (default configuration); R15.i parsing of request data is exception-contained')
+               'R15.h render hooks fill only unset context keys (default configuration); R15.i parsing of request data is exception-contained; '
+               'R15.j bookkeeping after next() is total (sequence indices in bounds)')
     rep.decline('losslessness of gzip, equality of decoded bodies (values)')
     rep.assume('werkzeug 1.0.1 class layout as parsed from site-packages/werkzeug/wrappers')
     rep.assume('HTTPException(BaseResponse, Exception) instances flow through request middlewares (null route, raised/returned errors)')
@@ -191,6 +195,10 @@ def run(rep):
     for fi in sorted(funcs, key=lambda f: f.key):
         _guarded(rep, c15_paths.check_render_context, rep, 'R15.h', fi)
     rep.guard(rep.floor, 'R15.h', 1)
+    rep.rule('R15.j', "the middleware's own bookkeeping after next() cannot raise: index operations on sequences are entailed in bounds or absorbed")
+    from . import c15_total
+    _guarded(rep, c15_total.check_bookkeeping_total, rep, 'R15.j', funcs)
+    rep.guard(rep.floor, 'R15.j', 1)
     for rule, n in (('R15.a', 9), ('R15.b', 9), ('R15.c', 4), ('R15.d', 9), ('R15.f', 6), ('R15.g', 6)):
         rep.guard(rep.floor, rule, n)
 
